@@ -59,3 +59,33 @@ Theorem C07_collect_keys_complete : forall b e f, In f (fields_of e) -> not_disa
   exists i, In (f, i) (snd (collect_keys b e)).
 Proof. exact collect_keys_complete. Qed.
 Print Assumptions C07_collect_keys_complete.
+
+(* ---- the updaters report the element they write to ---- *)
+From GE Require Import Model.Lit Model.ExprGen Model.Escape Model.TagGen Proofs.TagGenProofs.
+
+(* ProcGenWrapper.bindingMapUpdate applies the queued property changes of exactly the elements the updaters report
+   through `E`; a component may queue what `R.r` (properties) and `R.y` (a property named `style`) write.  Every
+   updater the attribute-level generators write - properties, model bindings, class, style, id, data-*, marks -
+   ends with `;E(N)}` (class / style / id: fix 53ac0a3). *)
+Theorem C07_setter_updater_reports_element : forall scopes lit_str call e b ks st,
+  keys_is_empty b ks = false ->
+  reports_element (last (snd (setter_dynamic scopes lit_str call e b (Some ks) st)) []).
+Proof. exact setter_updater_reports. Qed.
+Print Assumptions C07_setter_updater_reports_element.
+
+Theorem C07_property_updater_reports_element : forall scopes lit_str kind name e b ks st,
+  keys_is_empty b ks = false ->
+  reports_element (last (snd (normal_attr_dynamic scopes lit_str kind name e b (Some ks) st)) []).
+Proof. exact normal_attr_updater_reports. Qed.
+Print Assumptions C07_property_updater_reports_element.
+
+(* not vacuous: `<v style="{{ a }}"/>` - the key of `a` is advertised and the statements are the ones the
+   implementation prints (the correspondence stage compares this text for every generated binding) *)
+Example C07_style_updater_text :
+  let e := EField (lit "a") in
+  let '(b, ks) := collect_keys bmc_new e in
+  keys_is_empty b ks = false /\
+  snd (setter_dynamic [] (gen_lit_str (fun _ => false)) (setter_call (gen_lit_str (fun _ => false)) (lit "R.y") None)
+         e b (Some ks) (mk_gst 0)) =
+  [lit "if(C||K||U.a)R.y(N,D.a)"; lit "A[""a""][0]=(D,E,T)=>{R.y(N,D.a);E(N)}"].
+Proof. vm_compute. split; reflexivity. Qed.
